@@ -28,22 +28,38 @@ type C09Reply struct {
 type C09Peer struct {
 	Kind string `json:"kind"`
 	// Stream: the bytes the peer sends (hex-free: generated from Kind+Seed at run time), Len is informative
-	Seed     uint64  `json:"seed"`
-	Arg      int     `json:"arg,omitempty"`
-	Extra    int     `json:"extra"`     // bytes sent after the first packet
-	Cuts     []int   `json:"cuts"`      // segment boundaries (offsets), ascending
-	DelaysMS []int   `json:"delays_ms"` // virtual delay before each segment
-	Mode     string  `json:"mode"`      // "stay" (read all replies, then close) | "close" (close right after sending) | "stall" (send a strict prefix of the first packet and wait)
-	StallAt  int     `json:"stall_at,omitempty"`
+	Seed     uint64     `json:"seed"`
+	Arg      int        `json:"arg,omitempty"`
+	Extra    int        `json:"extra"`     // bytes sent after the first packet
+	Cuts     []int      `json:"cuts"`      // segment boundaries (offsets), ascending
+	DelaysMS []int      `json:"delays_ms"` // virtual delay before each segment
+	Mode     string     `json:"mode"`      // "stay" (read all replies, then close) | "close" (close right after sending) | "stall" (send a strict prefix of the first packet and wait)
+	StallAt  int        `json:"stall_at,omitempty"`
 	Replies  []C09Reply `json:"replies"`
 	// TargetClosesFirst: the target closes after its last reply instead of waiting for EOF
 	TargetClosesFirst bool `json:"target_closes_first,omitempty"`
+	// StartMS: the peer connects this long after the others
+	StartMS int `json:"start_ms,omitempty"`
 }
 
 type C09Scenario struct {
 	Peers   []C09Peer `json:"peers"`
 	Partial bool      `json:"partial"`
 	Seed    uint64    `json:"seed"`
+	// RedirDialMS: connecting to the redirect target takes this long (a slow or
+	// distant web server): later peers arrive while an earlier one is being handed over
+	RedirDialMS int `json:"redir_dial_ms,omitempty"`
+}
+
+// c09Stagger spreads the peers' arrivals over a slow hand-over to the target.
+func c09Stagger(g *Gen, sc *C09Scenario, prob float64) {
+	if !g.Bool(prob) {
+		return
+	}
+	sc.RedirDialMS = g.Pick(20, 1500, 1500, 8000)
+	for i := range sc.Peers {
+		sc.Peers[i].StartMS = g.Pick(0, 0, 10, 500, 1000, 3000)
+	}
 }
 
 var c09Kinds = []string{"hello-fuzzed", "hello-bad-keyshare", "random", "firstbyte", "tls-short", "tls-exact", "tls-over", "tls-random-len", "foreign-hello", "cloak-truncated", "cloak-mutated", "cloak-replay",
@@ -75,6 +91,7 @@ func genC09(g *Gen) any {
 	for i := 0; i < n; i++ {
 		sc.Peers = append(sc.Peers, genC09Peer(g, c09Kinds[g.Rng.IntN(len(c09Kinds))]))
 	}
+	c09Stagger(g, sc, 0.4)
 	return sc
 }
 
@@ -253,19 +270,19 @@ func c09Stream(w *SrvWorld, p C09Peer, extraClients *[]c09Genuine) (s []byte, fi
 var dialOrder []*c09Conn
 
 type c09Conn struct {
-	peer     C09Peer
-	stream   []byte
-	first    int
-	sent     int
-	peerGot  []byte
-	peerDone bool
-	peerErr  error
-	tgtGot   []byte
-	tgtSent  []byte
-	tgtDone  bool
-	tgtSeen  bool
+	peer      C09Peer
+	stream    []byte
+	first     int
+	sent      int
+	peerGot   []byte
+	peerDone  bool
+	peerErr   error
+	tgtGot    []byte
+	tgtSent   []byte
+	tgtDone   bool
+	tgtSeen   bool
 	localPort int
-	slow     bool // a delay of more than the server's patience fell before the first packet was complete
+	slow      bool // a delay of more than the server's patience fell before the first packet was complete
 }
 
 func runC09(c *Ctx, scAny any) {
@@ -273,6 +290,9 @@ func runC09(c *Ctx, scAny any) {
 	c.Net.DefaultPartial = sc.Partial
 	w := NewSrvWorld(c, SrvParams{NBypass: 1})
 	defer w.Cleanup()
+	if sc.RedirDialMS > 0 {
+		c.Net.DialDelay[redirAddr] = time.Duration(sc.RedirDialMS) * time.Millisecond
+	}
 	simsync.Go("h:serve", func() { server.Serve(w.Front, w.Sta) })
 	conns := make([]*c09Conn, len(sc.Peers))
 	var genuine []c09Genuine
@@ -339,6 +359,9 @@ func runC09(c *Ctx, scAny any) {
 		simsync.Go("h:peer", func() {
 			for pendingGenuine > 0 {
 				Sleep(10 * time.Millisecond)
+			}
+			if cn.peer.StartMS > 0 {
+				Sleep(time.Duration(cn.peer.StartMS) * time.Millisecond)
 			}
 			d := &simnet.Dialer{Net: c.Net, LocalIP: fmt.Sprintf("10.0.1.%d", i+1)}
 			pc, err := d.Dial("tcp", srvAddr)
@@ -545,5 +568,7 @@ func init() {
 	// c08-history under C09: a replaying prober is an unauthenticated peer; an
 	// accepted replay (sequential, N at once, across clean-ups, in the other
 	// transport's envelope) is answered with the server's own handshake reply
-	plans["C09"] = []string{"c09-firstbyte", "c09-peers", "c08-history"}
+	// c07-unauth-peers under C09: valid hellos that are refused late (unknown
+	// user or method), next to bystanders, with a slow hand-over to the target
+	plans["C09"] = []string{"c09-firstbyte", "c09-peers", "c08-history", "c07-unauth-peers"}
 }
